@@ -10,7 +10,7 @@ import FluentModel.Drv.Common
 driver for area `fmt`:
 
 `fmt <cfg> <resources> <fns> <reqs>`
-* cfg       `iso=0|1;tr=none|upper;fm=none|numbr|strwrap;fl=st|conc;loc=<locale>`
+* cfg       `iso=0|1;tr=none|upper|pseudo|bracket;fm=none|numbr|strwrap;fl=st|conc;loc=<locale>`
 * resources `a:<hex ftl>` (add_resource) / `o:<hex ftl>` (add_resource_overriding), comma separated, `-` = none
 * fns       names of library functions to register (`-` = none); `NUMBER` = `add_builtins`
 * reqs      `<hex id>:<hex attr|~>:<args>` comma separated; args = `~` (None) or `k=tok&k=tok…` (`.` = empty FluentArgs)
@@ -183,7 +183,8 @@ def runOne (payload : String) : String :=
           fn := fun id => match reg.get id with | some (.function f) => some f | _ => none
           useIsolating := iso
           transform := if tr == "upper" then some Builtins.upperAscii
-                       else if tr == "pseudo" then some pseudoTransform else none
+                       else if tr == "pseudo" then some pseudoTransform
+                       else if tr == "bracket" then some Builtins.bracketText else none
           formatter := if fm == "numbr" then some Builtins.formatterNumBr
                        else if fm == "strwrap" then some Builtins.formatterStrWrap else none
           category := fun n => (Plural.pluralCategory loc n).map fun c =>
